@@ -197,6 +197,7 @@ func checkC05(p *Prog, r *Report) {
 	r.rule("C05.B5", "no explicit panic is reachable from the entry points except the frozen, justified ones; unchecked type assertions agree with the static type of every value stored into the asserted container", 5)
 	r.rule("C05.B6", "every / and % with a non-constant divisor in the input-path functions has a positive divisor: a dominating fact, or a field whose every store is positive", 4)
 	r.rule("C05.B9", "the reader's copy loop stays inside the caller's buffer: PeekSize (Recv's admission test) and Recv's copy loop both stop at the first segment with frg == 0, so they agree on the message even for forged fragment numbers (= C01.S7)", 2)
+	r.rule("C05.B14", "what datagrams make the core queue is emitted inside its buffers: every segment flush encodes — acknowledgements included, whose number per flush is peer-controlled — is preceded by the reservation that flushes the staging buffer when it would exceed the MTU (= C10.M4) — an unreserved run of ACKs overruns the staging buffer or the session's pooled buffer", 3)
 	r.rule("C05.B13", "the reader's staging buffer holds any message the peer can make the core deliver (fragment counts are peer-controlled: up to rcv_wnd segments): every reslice recvbuf[:size] to a PeekSize result is preceded on every path by the capacity test cap(recvbuf) < size whose true arm re-allocates with at least size — a fixed-size buffer panics in Read, with the session mutex held, for a message larger than it", 1)
 	r.rule("C05.B12", "no datagram can orphan a live session (unbounded growth): a session leaves the listener's table only by being closed (= C15.G8)", 2)
 	r.rule("C05.B11", "every operand of a 64-bit sync/atomic function is 64-bit aligned on 32-bit platforms as well: a struct field at an offset that is a multiple of 8 (gc/386 layout) from the start of its allocation — otherwise the first datagram that reaches the operation panics the process on 386/arm/mips", 10)
@@ -227,6 +228,7 @@ func checkC05(p *Prog, r *Report) {
 	checkAtomicAlignment(p, r, "C05.B11")
 	checkSessionsLeaveByClose(p, r, "C05.B12")
 	checkStagingBufferGrows(p, r)
+	delegate(p, r, "C10", checkC10, "C10.M4", "C05.B14")
 	delegate(p, r, "C04", checkC04, "C04.W1", "C05.B8")
 	delegate(p, r, "C04", checkC04, "C04.W2", "C05.B8")
 
@@ -1218,6 +1220,12 @@ func checkModularIndices(p *Prog, r *Report) {
 			return true
 		}
 		it := p.Term(ix.Index)
+		if it.Op == "var" {
+			// pos := pkt.seqid() % uint32(dec.shardSize)
+			if rt := p.resolveSingleDefs(dec, it); rt.Op == "%" {
+				it = rt
+			}
+		}
 		okI := false
 		why := ""
 		switch {
